@@ -20,7 +20,7 @@ const K_BASE: [&str; 3] = ["k", "m", "n"]; // layer-switch l0 / l1 / l2
 
 /// universe for e2e expressions: keys = PLAIN + nops (as output keys) + s, l, o (only for input /
 /// input-history as far as allowed)
-fn universe() -> U {
+pub(super) fn universe() -> U {
     let mut keys: Vec<(String, u16)> = PLAIN.iter().map(|n| (n.to_string(), osc(n))).collect();
     for n in NOPS {
         keys.push((n.to_string(), osc(n)));
@@ -34,7 +34,7 @@ const IDX_HOLD1: usize = 8;
 const IDX_SWITCH: usize = 10;
 
 #[derive(Clone, Debug)]
-enum Fk {
+pub(super) enum Fk {
     W(usize),
     Fork(Box<Fk>, Box<Fk>, Vec<usize>),
 }
@@ -72,16 +72,16 @@ fn eval_fk(f: &Fk, u: &U, active: &[u16]) -> usize {
     }
 }
 
-struct Scenario {
-    cfg: String,
-    u: U,
+pub(super) struct Scenario {
+    pub cfg: String,
+    pub u: U,
     /// switch cases: condition, action, break
-    cases: Vec<(Vec<E>, Fk, bool)>,
-    fork: Fk,
+    pub cases: Vec<(Vec<E>, Fk, bool)>,
+    pub fork: Fk,
     /// events before the final key
-    pre: Vec<Ev>,
-    final_is_fork: bool,
-    class: String,
+    pub pre: Vec<Ev>,
+    pub final_is_fork: bool,
+    pub class: String,
 }
 
 fn gen_fork(rng: &mut Rng, next_w: &mut usize, depth: usize) -> Fk {
@@ -123,13 +123,64 @@ fn restrict(e: &mut E, rng: &mut Rng) {
     }
 }
 
-fn make(ctx: &Ctx, r: u64) -> Scenario {
-    let mut rng = Rng::for_case(ctx.seed, "C10", "e2e", r);
+/// thresholds used when history entries get very old: small ones (a wrapped age counter falls
+/// below them again), the compression edges, and the top of the u16 range
+pub(super) const LONG_T: &[u16] = &[
+    0, 1, 5, 50, 200, 255, 256, 1000, 2303, 2304, 5000, 10000, 30000, 32767, 32768, 40000, 60000, 65407, 65408, 65534, 65535,
+];
+
+/// the written configuration of an end-to-end scenario
+pub(super) fn build_cfg(u: &U, cases: &[(Vec<E>, Fk, bool)], fork: &Fk) -> String {
+    let mut s = String::from("(defcfg process-unmapped-keys yes)\n(defvirtualkeys");
+    for i in 0..NVK {
+        s.push_str(&format!(" vk{i} {}", NOPS[i]));
+    }
+    s.push_str(")\n(defsrc a b c d e s f l o k m n)\n");
+    for l in ["l0", "l1", "l2"] {
+        s.push_str(&format!("(deflayer {l} a b c d e @sw @fk (layer-while-held l1) (layer-while-held l2) (layer-switch l0) (layer-switch l1) (layer-switch l2))\n"));
+    }
+    s.push_str("(defalias\n sw (switch\n");
+    for (items, act, brk) in cases {
+        s.push_str("  ");
+        s.push_str(&render_top(items, u));
+        s.push(' ');
+        render_fk(act, u, &mut s);
+        s.push_str(if *brk { " break\n" } else { " fallthrough\n" });
+    }
+    s.push_str(" )\n fk ");
+    render_fk(fork, u, &mut s);
+    s.push_str("\n)\n");
+    s
+}
+
+/// key-timing leaves with their comparison: (recency, lt?, threshold)
+pub(super) fn timing_leaves(e: &E, out: &mut Vec<(u8, bool, u16)>) {
+    match e {
+        E::Or(v) | E::And(v) | E::Not(v) => v.iter().for_each(|x| timing_leaves(x, out)),
+        E::Timing(r, lt, t) => out.push((*r, *lt, *t)),
+        _ => {}
+    }
+}
+fn hist_leaves(e: &E, kh: &mut Vec<u8>, ih: &mut Vec<u8>) {
+    match e {
+        E::Or(v) | E::And(v) | E::Not(v) => v.iter().for_each(|x| hist_leaves(x, kh, ih)),
+        E::KeyHist(_, r) => kh.push(*r),
+        E::InputHist(_, r) => ih.push(*r),
+        _ => {}
+    }
+}
+
+/// `long`: the "very old history" family - one or two of the gaps of the history are longer than
+/// the range of the u16 age counters (65535 ticks), placed anywhere in the history, aimed so that
+/// the entry a key-timing leaf refers to has an age just below / at / above 65536*k + threshold.
+fn make(ctx: &Ctx, r: u64, long: bool) -> Scenario {
+    let mut rng = Rng::for_case(ctx.seed, "C10", if long { "e2e-long" } else { "e2e" }, r);
     let u = universe();
-    let final_is_fork = r % 3 == 2;
-    let over8 = r % 3 == 1 && r % 9 == 1;
-    let timing_pool: Vec<u16> = vec![0, 1, 2, 3, 5, 10, 50, 255, 256, 262, 263, 264, 300, 2303, 2304, 2431, 2432];
-    let o = GenOpts { max_depth: 8, leaf_w: [6, 4, 4, 4, 4, 3, 3], timing_pool, max_arity: 3 };
+    let final_is_fork = !long && r % 3 == 2;
+    let over8 = !long && r % 3 == 1 && r % 9 == 1;
+    let timing_pool: Vec<u16> =
+        if long { LONG_T.to_vec() } else { vec![0, 1, 2, 3, 5, 10, 50, 255, 256, 262, 263, 264, 300, 2303, 2304, 2431, 2432] };
+    let o = GenOpts { max_depth: 8, leaf_w: if long { [3, 5, 10, 2, 5, 2, 2] } else { [6, 4, 4, 4, 4, 3, 3] }, timing_pool, max_arity: 3 };
     let mut next_w = 0usize;
     let mut cases = vec![];
     let ncases = if over8 { rng.range(10, 14) } else { rng.range(1, 8) } as usize;
@@ -149,26 +200,7 @@ fn make(ctx: &Ctx, r: u64) -> Scenario {
     let fork = gen_fork(&mut rng, &mut next_w, 2);
     let fork = if let Fk::W(_) = fork { Fk::Fork(Box::new(fork), Box::new(Fk::W(next_w)), vec![rng.usize(8)]) } else { fork };
 
-    // configuration
-    let mut s = String::from("(defcfg process-unmapped-keys yes)\n(defvirtualkeys");
-    for i in 0..NVK {
-        s.push_str(&format!(" vk{i} {}", NOPS[i]));
-    }
-    s.push_str(")\n(defsrc a b c d e s f l o k m n)\n");
-    for l in ["l0", "l1", "l2"] {
-        s.push_str(&format!("(deflayer {l} a b c d e @sw @fk (layer-while-held l1) (layer-while-held l2) (layer-switch l0) (layer-switch l1) (layer-switch l2))\n"));
-    }
-    s.push_str("(defalias\n sw (switch\n");
-    for (items, act, brk) in &cases {
-        s.push_str("  ");
-        s.push_str(&render_top(items, &u));
-        s.push(' ');
-        render_fk(act, &u, &mut s);
-        s.push_str(if *brk { " break\n" } else { " fallthrough\n" });
-    }
-    s.push_str(" )\n fk ");
-    render_fk(&fork, &u, &mut s);
-    s.push_str("\n)\n");
+    let s = build_cfg(&u, &cases, &fork);
 
     // pre-events
     let mut pre = vec![];
@@ -230,7 +262,7 @@ fn make(ctx: &Ctx, r: u64) -> Scenario {
         }
     }
     let mut final_gap: u32 = *rng.pick(&[1u32, 1, 2, 3, 5, 10, 50, 255, 256, 264]);
-    if !final_is_fork && !ts.is_empty() && rng.chance(3, 4) {
+    if !long && !final_is_fork && !ts.is_empty() && rng.chance(3, 4) {
         let (rec, t) = ts[rng.usize(ts.len())];
         // arrival offsets (relative to the end of `pre`) of key-history pushes, most recent first
         let mut back = 0u32;
@@ -252,9 +284,18 @@ fn make(ctx: &Ctx, r: u64) -> Scenario {
     }
     // the trailing gap of `pre` plus final_gap separate the last event from the final key
     pre.push(Ev::T(final_gap));
+    if long {
+        place_long_gaps(&mut rng, &mut pre, &cases);
+    }
     let class = format!(
         "{}:{}:held{}:v{}:{}",
-        if final_is_fork { "fork" } else { "switch" },
+        if long {
+            "switch-long"
+        } else if final_is_fork {
+            "fork"
+        } else {
+            "switch"
+        },
         if over8 { "over8" } else { "le8" },
         held.len(),
         vheld.len(),
@@ -263,13 +304,92 @@ fn make(ctx: &Ctx, r: u64) -> Scenario {
     Scenario { cfg: s, u, cases, fork, pre, final_is_fork, class }
 }
 
+/// is this event a push onto the key history (an output key press) in the scenarios generated here?
+fn is_key_push(e: &Ev) -> bool {
+    match e {
+        Ev::P(c) => PLAIN.iter().any(|k| osc(k) == *c),
+        Ev::Fk(_, 'p') => true,
+        _ => false,
+    }
+}
+
+/// Replace one (sometimes two) of the gaps of `pre` by a gap longer than the u16 range.
+fn place_long_gaps(rng: &mut Rng, pre: &mut Vec<Ev>, cases: &[(Vec<E>, Fk, bool)]) {
+    let tpos: Vec<usize> = pre.iter().enumerate().filter(|(_, e)| matches!(e, Ev::T(_))).map(|(i, _)| i).collect();
+    let pushes: Vec<usize> = pre.iter().enumerate().filter(|(_, e)| is_key_push(e)).map(|(i, _)| i).collect();
+    let mut leaves = vec![];
+    for c in cases {
+        for it in &c.0 {
+            timing_leaves(it, &mut leaves);
+        }
+    }
+    let general: &[u32] = &[65_530, 65_534, 65_535, 65_536, 65_537, 65_540, 65_545, 65_600, 66_000, 70_000, 100_000, 131_072, 131_080, 140_000];
+    let mut first = None;
+    if !leaves.is_empty() && !pushes.is_empty() && rng.chance(5, 6) {
+        let (rec, _, t) = leaves[rng.usize(leaves.len())];
+        // if the history is shorter than the recency asked for, aim at the oldest entry
+        let rec = (rec as usize).min(pushes.len());
+        let pi = pushes[pushes.len() - rec];
+        let after: Vec<usize> = tpos.iter().copied().filter(|i| *i > pi).collect();
+        if !after.is_empty() {
+            let gp = after[rng.usize(after.len())];
+            let other: u64 = after.iter().filter(|i| **i != gp).map(|i| if let Ev::T(n) = &pre[*i] { *n as u64 } else { 0 }).sum();
+            let qt = q(t) as u64;
+            let want_age: u64 = if rng.chance(1, 4) {
+                65_530 + rng.below(16)
+            } else {
+                let k = *rng.pick(&[1u64, 1, 1, 1, 2, 3]);
+                let d = match rng.usize(7) {
+                    0 => qt.saturating_sub(1),
+                    1 => qt,
+                    2 => qt + 1,
+                    3 => rng.below(10),
+                    4 => rng.below(3000),
+                    5 => qt / 2,
+                    _ => rng.below(65_536),
+                };
+                k * 65_536 + d.min(65_535)
+            };
+            let l = want_age.saturating_sub(other).max(1);
+            pre[gp] = Ev::T(l as u32);
+            first = Some(gp);
+        }
+    }
+    if first.is_none() && !tpos.is_empty() {
+        let gp = tpos[rng.usize(tpos.len())];
+        pre[gp] = Ev::T(*rng.pick(general));
+        first = Some(gp);
+    }
+    if rng.chance(1, 4) && tpos.len() > 1 {
+        let gp = tpos[rng.usize(tpos.len())];
+        if Some(gp) != first {
+            pre[gp] = Ev::T(*rng.pick(general));
+        }
+    }
+}
+
 pub fn describe(ctx: &Ctx, r: u64) -> Value {
-    let sc = make(ctx, r);
+    describe_mode(ctx, r, false)
+}
+pub fn describe_long(ctx: &Ctx, r: u64) -> Value {
+    describe_mode(ctx, r, true)
+}
+fn describe_mode(ctx: &Ctx, r: u64, long: bool) -> Value {
+    let sc = make(ctx, r, long);
     json!({"part": "e2e", "config": sc.cfg, "history": render_hist(&sc.pre), "final_key": if sc.final_is_fork { K_FORK } else { K_SWITCH }})
 }
 
 /// state at the moment the final key (arriving at `t_final`) is processed, from the input history alone
-fn model_state(sc: &Scenario, vk_idx: &[u16], final_code: u16) -> St {
+/// true (unsaturated) ages of the modelled history entries, most recent first
+#[derive(Clone, Debug, Default)]
+pub(super) struct TrueAges {
+    pub hk: Vec<u64>,
+    pub hi: Vec<u64>,
+    /// longest single gap of the history
+    pub longest_gap: u64,
+}
+
+fn model_state(sc: &Scenario, vk_idx: &[u16], final_code: u16) -> (St, TrueAges) {
     let u = &sc.u;
     let mut now = 0u64;
     // (name-or-vk, arrival) in press order
@@ -329,11 +449,27 @@ fn model_state(sc: &Scenario, vk_idx: &[u16], final_code: u16) -> St {
     st.layers = vec![held_layers.last().map(|x| x.1).unwrap_or(base)];
     st.base = base;
     let _ = u;
-    st
+    let ta = TrueAges {
+        hk: hk.iter().rev().take(8).map(|(_, t)| now - t).collect(),
+        hi: hi.iter().rev().take(8).map(|(_, t)| now - t).collect(),
+        longest_gap: sc.pre.iter().map(|e| if let Ev::T(n) = e { *n as u64 } else { 0 }).max().unwrap_or(0),
+    };
+    (st, ta)
 }
 
 pub fn run(out: &mut CaseOut, ctx: &Ctx, r: u64) {
-    let sc = make(ctx, r);
+    let sc = make(ctx, r, false);
+    judge(out, ctx, &sc, r % 400 == 3);
+}
+
+pub fn run_long(out: &mut CaseOut, ctx: &Ctx, r: u64) {
+    let sc = make(ctx, r, true);
+    out.inc("e2e_long_random_scenarios");
+    judge(out, ctx, &sc, r % 400 == 3);
+}
+
+/// Drive a real Kanata through the scenario and compare the witnesses with the model.
+pub(super) fn judge(out: &mut CaseOut, ctx: &Ctx, sc: &Scenario, sample: bool) {
     let mut sim = match Sim::new(&sc.cfg) {
         Ok(s) => s,
         Err(e) => {
@@ -358,7 +494,22 @@ pub fn run(out: &mut CaseOut, ctx: &Ctx, r: u64) {
     }
     let final_name = if sc.final_is_fork { K_FORK } else { K_SWITCH };
     let final_code = osc(final_name);
-    let st = model_state(&sc, &vk_idx, final_code);
+    let (st, ta) = model_state(sc, &vk_idx, final_code);
+    if !sc.final_is_fork {
+        // The age of an entry is only known up to 65535 ticks. With the one threshold that compresses
+        // to 65535 the guide's wording ("pressed later than $time") and the representable ages cannot
+        // both be honoured for an entry that is older than that; not judged (see assumptions()).
+        let mut tl = vec![];
+        for c in &sc.cases {
+            for it in &c.0 {
+                timing_leaves(it, &mut tl);
+            }
+        }
+        if tl.iter().any(|(rec, _, t)| q(*t) == 65_535 && ta.hk.get(*rec as usize - 1).map(|a| *a > 65_535).unwrap_or(false)) {
+            out.inc("e2e_unjudged_threshold_65535_on_older_entry");
+            return;
+        }
+    }
     sim.run(&sc.pre);
     let mark = sim.trace.len();
     sim.press(final_code);
@@ -413,6 +564,74 @@ pub fn run(out: &mut CaseOut, ctx: &Ctx, r: u64) {
                 }
             }
         }
+        // evidence for the "very old history entry" dimension: which leaves looked at an entry that is
+        // older than the u16 age counter can count (its modelled age is the saturated 65535)
+        let mut old_timing = false;
+        for c in &sc.cases {
+            let (mut tl, mut kh, mut ih) = (vec![], vec![], vec![]);
+            for it in &c.0 {
+                timing_leaves(it, &mut tl);
+                hist_leaves(it, &mut kh, &mut ih);
+            }
+            for (rec, lt, t) in tl {
+                let Some(age) = ta.hk.get(rec as usize - 1).copied() else { continue };
+                if (32_760..=32_775).contains(&age) {
+                    out.inc("e2e_timing_age_32760_32775");
+                }
+                if (65_400..65_530).contains(&age) {
+                    out.inc("e2e_timing_age_65400_65529");
+                }
+                if (65_530..=65_545).contains(&age) {
+                    out.inc("e2e_timing_age_65530_65545");
+                }
+                if age < 65_536 {
+                    continue;
+                }
+                old_timing = true;
+                out.inc("e2e_timing_entry_older_than_65535");
+                out.inc(if lt { "e2e_old_entry_lt_leaf" } else { "e2e_old_entry_gt_leaf" });
+                out.tag(format!("old-entry:rec{rec}:{}", if lt { "lt" } else { "gt" }));
+                if age >= 70_000 {
+                    out.inc("e2e_timing_age_ge_70000");
+                }
+                if age >= 131_072 {
+                    out.inc("e2e_timing_age_ge_131072");
+                }
+                // does it matter for this leaf that the age stays at 65535 instead of starting again
+                // from 0? (threshold at or above the age modulo 65536)
+                if (age % 65_536) <= q(t) as u64 {
+                    out.inc("e2e_old_entry_threshold_above_age_mod_65536");
+                } else {
+                    out.inc("e2e_old_entry_threshold_below_age_mod_65536");
+                }
+                if rec >= 2 {
+                    out.inc("e2e_old_entry_recency_ge_2");
+                }
+                if rec == 8 {
+                    out.inc("e2e_old_entry_recency_8");
+                }
+            }
+            for rec in kh {
+                if ta.hk.get(rec as usize - 1).map(|a| *a >= 65_536).unwrap_or(false) {
+                    out.inc("e2e_key_history_entry_older_than_65535");
+                }
+            }
+            for rec in ih {
+                if ta.hi.get(rec as usize - 1).map(|a| *a >= 65_536).unwrap_or(false) {
+                    out.inc("e2e_input_history_entry_older_than_65535");
+                }
+            }
+        }
+        if ta.hk.iter().filter(|a| **a >= 65_536).count() >= 2 {
+            out.inc("e2e_two_or_more_entries_older_than_65535");
+        }
+        let age_class = if old_timing {
+            ":key-timing-entry-older-than-65535-ticks"
+        } else if ta.longest_gap >= 65_536 || ta.hk.iter().any(|a| *a >= 65_536) {
+            ":after-gap-longer-than-65535-ticks"
+        } else {
+            ""
+        };
         if !fire.is_empty() {
             out.inc("e2e_switch_some_case_fired");
         }
@@ -434,20 +653,20 @@ pub fn run(out: &mut CaseOut, ctx: &Ctx, r: u64) {
             }
             if !ok {
                 out.violate(
-                    "C10:e2e:performed-nonfiring",
+                    format!("C10:e2e:performed-nonfiring{age_class}"),
                     "with more than 8 firing cases an action was performed that belongs to no firing case (or out of order)",
                     json!({"config": sc.cfg, "history": render_hist(&hist), "observed": observed.iter().map(|i| WITNESS[*i]).collect::<Vec<_>>(), "expected": want.iter().map(|i| WITNESS[*i]).collect::<Vec<_>>(), "state": format!("{st:?}"), "trace": sim.trace_json()}),
                 );
             }
         } else if observed != want {
             out.violate(
-                "C10:e2e:switch-sequence",
+                format!("C10:e2e:switch-sequence{age_class}"),
                 format!("switch performed {:?}, expected {:?}", observed.iter().map(|i| WITNESS[*i]).collect::<Vec<_>>(), want.iter().map(|i| WITNESS[*i]).collect::<Vec<_>>()),
-                json!({"config": sc.cfg, "history": render_hist(&hist), "observed": observed.iter().map(|i| WITNESS[*i]).collect::<Vec<_>>(), "expected": want.iter().map(|i| WITNESS[*i]).collect::<Vec<_>>(), "firing_cases": fire, "state": format!("{st:?}"), "trace": sim.trace_json()}),
+                json!({"config": sc.cfg, "history": render_hist(&hist), "observed": observed.iter().map(|i| WITNESS[*i]).collect::<Vec<_>>(), "expected": want.iter().map(|i| WITNESS[*i]).collect::<Vec<_>>(), "firing_cases": fire, "state": format!("{st:?}"), "true_ages_of_key_history_most_recent_first": ta.hk, "trace": sim.trace_json()}),
             );
         }
     }
-    if r % 400 == 3 {
+    if sample && out.sample.is_none() {
         out.sample = Some(json!({"part": "e2e", "config": sc.cfg, "history": render_hist(&hist), "observed_witnesses": observed.iter().map(|i| WITNESS[*i]).collect::<Vec<_>>()}));
     }
     let _ = IDX_HOLD1;
